@@ -2035,23 +2035,24 @@ func (ls *LState) Resume(th *LState, fn *LFunction, args ...LValue) (ResumeState
 	}
 	th.Parent = ls
 	ls.G.CurrentThread = th
-	if !isstarted {
-		cf := th.stack.Last()
-		th.currentFrame = cf
-		th.SetTop(0)
-		for _, arg := range args {
-			th.Push(arg)
-		}
-		cf.NArgs = len(args)
-		th.initCallFrame(cf)
-		th.Panic = panicWithoutTraceback
-	} else {
-		for _, arg := range args {
-			th.Push(arg)
-		}
-	}
 	top := ls.GetTop()
-	threadRun(th)
+	threadRun(th, func() {
+		if !isstarted {
+			cf := th.stack.Last()
+			th.currentFrame = cf
+			th.Panic = panicWithoutTraceback
+			th.SetTop(0)
+			for _, arg := range args {
+				th.Push(arg)
+			}
+			cf.NArgs = len(args)
+			th.initCallFrame(cf)
+		} else {
+			for _, arg := range args {
+				th.Push(arg)
+			}
+		}
+	})
 	haserror := LVIsFalse(ls.Get(top + 1))
 	ret := make([]LValue, 0, ls.GetTop())
 	for idx := top + 2; idx <= ls.GetTop(); idx++ {
